@@ -9,7 +9,7 @@ From Whad Require Import Lib.Bytes Lib.Xor Lib.Aes Lib.Ccm.
 Import ListNotations.
 
 (** Python exceptions are values *)
-Inductive exn := IndexError | UnboundLocalError | ValueError | StructError | MissingCryptographicMaterial.
+Inductive exn := IndexError | UnboundLocalError | ValueError | StructError | MissingCryptographicMaterial | AttributeError.
 Inductive outcome (A : Type) : Type := Ok (a : A) | Raise (e : exn).
 Arguments Ok {A} a.
 Arguments Raise {A} e.
@@ -372,6 +372,167 @@ Section C13.
     end.
 End C13.
 
+(** * The BLE stack's link-layer manager (whad/ble/stack/llm/__init__.py): encryption start
+    procedure, central side (start_encryption, on_enc_rsp, on_start_enc_req) and peripheral side
+    (on_enc_req). Observable: the arguments of [set_encryption] handed to the PHY.
+    Transcribed as written: ONE [self.__llcm] attribute shared by all connection handles. *)
+
+(** per-connection entries of LinkLayerState.connections used by the procedure *)
+Record cstate := { ckey : option bytes; cskd : option N; civ : option N; crand : option N; cediv : option N }.
+
+Definition cstate0 : cstate := {| ckey := None; cskd := None; civ := None; crand := None; cediv := None |}.
+
+(** connections (dict by handle) and the single crypto manager (LTK and material it was built from) *)
+Record lls := { conns : list (N * cstate); llcm : option (bytes * material) }.
+
+Fixpoint cfind (h : N) (l : list (N * cstate)) : option cstate :=
+  match l with
+  | [] => None
+  | (h', c) :: r => if N.eqb h h' then Some c else cfind h r
+  end.
+
+(** [if conn_handle in self.connections: self.connections[conn_handle][...] = ...] *)
+Fixpoint cupd (h : N) (f : cstate -> cstate) (l : list (N * cstate)) : list (N * cstate) :=
+  match l with
+  | [] => []
+  | (h', c) :: r => if N.eqb h h' then (h', f c) :: r else (h', c) :: cupd h f r
+  end.
+
+Definition set_key (k : option bytes) (c : cstate) : cstate :=
+  {| ckey := k; cskd := cskd c; civ := civ c; crand := crand c; cediv := cediv c |}.
+Definition set_proc (skd iv rand ediv : N) (c : cstate) : cstate :=
+  {| ckey := ckey c; cskd := Some skd; civ := Some iv; crand := Some rand; cediv := Some ediv |}.
+
+Inductive levent :=
+| EReg (h : N) (k : option bytes)                 (* state.register_encryption_key (done by SMP) *)
+| EStart (h rand ediv skd iv : N)                 (* start_encryption; skd, iv = the two randint draws *)
+| EEncRsp (h skds ivs : N)                        (* LL_ENC_RSP received *)
+| EStartEncReq (h : N)                            (* LL_START_ENC_REQ received *)
+| EEncReq (h rand ediv skdm ivm skd iv : N).      (* LL_ENC_REQ received; skd, iv = the randint draws *)
+
+Inductive lout :=
+| LNone                                           (* nothing handed to the PHY controller *)
+| LReject                                         (* LL_REJECT_IND sent *)
+| LSetEnc (h : N) (ll_key ll_iv key : bytes) (rand ediv : option N)   (* phy.set_encryption(...) *)
+| LRaise (e : exn).
+
+Section Stack.
+  Variable E : bytes -> bytes -> bytes.
+
+  Definition with_conns (st : lls) (c : list (N * cstate)) : lls := {| conns := c; llcm := llcm st |}.
+
+  Definition ll_step (st : lls) (ev : levent) : lls * lout :=
+    match ev with
+    | EReg h k => (with_conns st (cupd h (set_key k) (conns st)), LNone)
+    | EStart h rand ediv skd iv =>
+      match cfind h (conns st) with
+      | Some c =>
+        match ckey c with
+        | Some _ => (with_conns st (cupd h (set_proc skd iv rand ediv) (conns st)), LNone)   (* LL_ENC_REQ sent *)
+        | None => (st, LReject)
+        end
+      | None => (st, LReject)
+      end
+    | EEncRsp h skds ivs =>
+      match cfind h (conns st) with
+      | None => (st, LNone)                        (* on_ctrl_pdu drops PDUs of unknown handles *)
+      | Some c =>
+        match ckey c with
+        | None => (st, LReject)
+        | Some k =>
+          match cskd c, civ c with
+          | Some skdm, Some ivm =>
+            let mat := {| m_skd := skdm; m_iv := ivm; s_skd := skds; s_iv := ivs |} in
+            match mk_manager E k mat with
+            | Ok _ => ({| conns := conns st; llcm := Some (k, mat) |}, LNone)
+            | Raise e => (st, LRaise e)
+            end
+          | _, _ => (st, LRaise StructError)        (* pack(">Q", None) *)
+          end
+        end
+      end
+    | EStartEncReq h =>
+      match cfind h (conns st) with
+      | None => (st, LNone)
+      | Some c =>
+        match llcm st with
+        | None => (st, LRaise AttributeError)      (* self.__llcm is None *)
+        | Some (ltk, mat) =>
+          (st, LSetEnc h (e_fn E ltk (session_skd mat)) (session_iv mat) ltk (crand c) (cediv c))
+        end
+      end
+    | EEncReq h rand ediv skdm ivm skd iv =>
+      match cfind h (conns st) with
+      | None => (st, LNone)
+      | Some c =>
+        match ckey c with
+        | None => (st, LReject)
+        | Some k =>
+          let cs := cupd h (set_proc skd iv rand ediv) (conns st) in
+          let mat := {| m_skd := skdm; m_iv := ivm; s_skd := skd; s_iv := iv |} in
+          match mk_manager E k mat with
+          | Ok _ => ({| conns := cs; llcm := Some (k, mat) |},
+                     LSetEnc h (e_fn E k (session_skd mat)) (session_iv mat) k (Some rand) (Some ediv))
+          | Raise e => (with_conns st cs, LRaise e)
+          end
+        end
+      end
+    end.
+
+  Fixpoint ll_run (st : lls) (evs : list levent) : lls * list lout :=
+    match evs with
+    | [] => (st, [])
+    | ev :: r => let '(st1, o) := ll_step st ev in
+                 let '(st2, os) := ll_run st1 r in (st2, o :: os)
+    end.
+
+  Definition is_set_enc (o : lout) : bool := match o with LSetEnc _ _ _ _ _ _ => true | _ => false end.
+  Definition set_enc_only (os : list lout) : list lout := filter is_set_enc os.
+
+  (** one run of the encryption start procedure and the material it is run with *)
+  Record proc := { p_central : bool; p_h : N; p_key : bytes;
+                   p_rand : N; p_ediv : N; p_skdm : N; p_ivm : N; p_skds : N; p_ivs : N }.
+
+  Definition proc_mat (p : proc) : material :=
+    {| m_skd := p_skdm p; m_iv := p_ivm p; s_skd := p_skds p; s_iv := p_ivs p |}.
+
+  Definition proc_events (p : proc) : list levent :=
+    if p_central p
+    then [EReg (p_h p) (Some (p_key p)); EStart (p_h p) (p_rand p) (p_ediv p) (p_skdm p) (p_ivm p);
+          EEncRsp (p_h p) (p_skds p) (p_ivs p); EStartEncReq (p_h p)]
+    else [EReg (p_h p) (Some (p_key p));
+          EEncReq (p_h p) (p_rand p) (p_ediv p) (p_skdm p) (p_ivm p) (p_skds p) (p_ivs p)].
+
+  (** what the PHY must be given: e(LTK, SKDs || SKDm), IVm || IVs, the LTK, rand, ediv of THIS procedure *)
+  Definition proc_expected (p : proc) : lout :=
+    LSetEnc (p_h p) (E (p_key p) (session_skd (proc_mat p))) (session_iv (proc_mat p)) (p_key p)
+            (Some (p_rand p)) (Some (p_ediv p)).
+
+  Definition proc_wfb (p : proc) : bool :=
+    Nat.eqb (length (p_key p)) 16 &&
+    ((p_skdm p <? two64) && (p_ivm p <? two32) && (p_skds p <? two64) && (p_ivs p <? two32))%N.
+
+  Definition registered (h : N) (st : lls) : bool :=
+    match cfind h (conns st) with Some _ => true | None => false end.
+
+  (** two central procedures whose PDUs interleave (two connections encrypting at the same time) *)
+  Definition interleaved (p q : proc) : list levent :=
+    [EReg (p_h p) (Some (p_key p)); EReg (p_h q) (Some (p_key q));
+     EStart (p_h p) (p_rand p) (p_ediv p) (p_skdm p) (p_ivm p);
+     EStart (p_h q) (p_rand q) (p_ediv q) (p_skdm q) (p_ivm q);
+     EEncRsp (p_h p) (p_skds p) (p_ivs p); EEncRsp (p_h q) (p_skds q) (p_ivs q);
+     EStartEncReq (p_h p); EStartEncReq (p_h q)].
+End Stack.
+
+(** "every run of the procedure hands the PHY its own material", also when two procedures on
+    different handles interleave — refuted by the faithful model (known finding) *)
+Definition stack_interleaved_statement : Prop :=
+  forall E, (forall k b, length (E k b) = 16) ->
+  forall (st : lls) (p q : proc),
+    proc_wfb p = true -> proc_wfb q = true -> registered (p_h p) st = true -> registered (p_h q) st = true ->
+    p_h p <> p_h q ->
+    set_enc_only (snd (ll_run E st (interleaved p q))) = [proc_expected E p; proc_expected E q].
+
 (** * The unconditional tamper statement (refuted in Proofs.v) and non-vacuity data *)
 Definition protected_view (c : bytes) : N * bytes := (N.land (hd 0%N c) header_mask, skipn 2 c).
 
@@ -394,7 +555,7 @@ Local Open Scope N_scope.
 
 Definition exn_code (e : exn) : N :=
   match e with IndexError => 1 | UnboundLocalError => 2 | ValueError => 3 | StructError => 4
-             | MissingCryptographicMaterial => 5 end.
+             | MissingCryptographicMaterial => 5 | AttributeError => 6 end.
 
 (** canonical observation of one operation: (kind, data, master_cnt, slave_cnt) with
     kind 0 = encrypt returned [data]; 1 = decrypt returned ([data], True);
@@ -504,3 +665,31 @@ Definition check_dec (c : dec_case) : bool :=
   let ds0 := {| keys := ks; mats := map mat_of qs; managers := [] |} in
   let '(ds, outs) := attempt_all aes128_enc ds0 pdus in
   dobs_list_eqb (map dobs_of outs) observed && mgrs_eqb (managers ds) final.
+
+(** stack case: registered handles, events, observed output of every event *)
+Definition optN_eqb (a b : option N) : bool :=
+  match a, b with Some x, Some y => x =? y | None, None => true | _, _ => false end.
+
+Definition lout_eqb (a b : lout) : bool :=
+  match a, b with
+  | LNone, LNone => true
+  | LReject, LReject => true
+  | LSetEnc h1 k1 i1 l1 r1 e1, LSetEnc h2 k2 i2 l2 r2 e2 =>
+    (h1 =? h2) && bytes_eqb k1 k2 && bytes_eqb i1 i2 && bytes_eqb l1 l2 && optN_eqb r1 r2 && optN_eqb e1 e2
+  | LRaise x, LRaise y => exn_code x =? exn_code y
+  | _, _ => false
+  end.
+
+Fixpoint louts_eqb (a b : list lout) : bool :=
+  match a, b with
+  | [], [] => true
+  | x :: a', y :: b' => lout_eqb x y && louts_eqb a' b'
+  | _, _ => false
+  end.
+
+Definition stack_case := (list N * list levent * list lout)%type.
+
+Definition check_stack (c : stack_case) : bool :=
+  let '(hs, evs, observed) := c in
+  let st0 := {| conns := map (fun h => (h, cstate0)) hs; llcm := None |} in
+  louts_eqb (snd (ll_run aes128_enc st0 evs)) observed.
